@@ -332,6 +332,18 @@ var c02Scalars = []scalarField{
 			c.Name = "my-pkg.name+x_1"
 		}
 	}},
+	// maintainers written the ways a mail header allows: a quoted display name with a comma, a comment and doubled
+	// blanks, an encoded word (all stated as configured)
+	{"maintainer-form", func(c *model.MetaCfg, v string) {
+		switch v {
+		case "plain":
+			c.Maintainer = `"ACME, Inc." <packages@acme.example>`
+		case c02Values[1]:
+			c.Maintainer = "Jane  Roe (packaging team) <jane@example.com>"
+		default:
+			c.Maintainer = "=?utf-8?q?J=C3=B6rg?= <joerg@example.com>"
+		}
+	}},
 	{"maintainer-unset", func(c *model.MetaCfg, v string) {
 		if v == "plain" {
 			c.Maintainer = ""
